@@ -63,7 +63,21 @@ def main():
                 nm = tc.get("classname") + "::" + tc.get("name")
                 res[nm] = not any(c.tag in ("failure", "error", "skipped") for c in tc)
             broken = sorted(s for s in stable if not res.get(s))
+            # a randomised test can fail under load: re-run each failing stable test alone three times
+            flaky = {}
+            for tname in list(broken):
+                mod_cls, fn_name = tname.split("::")
+                parts = mod_cls.split(".")
+                path = "/".join(parts[:-1]) + ".py::" + parts[-1] + "::" + fn_name
+                passes = 0
+                for _ in range(3):
+                    rc2, _o = sh("/venv/bin/python -m pytest -q -p no:cacheprovider --timeout=900 %s" % path, cwd=wt, timeout=1800)
+                    passes += rc2 == 0
+                flaky[tname] = "%d/3 passes when re-run alone" % passes
+                if passes == 3:
+                    broken.remove(tname)
             report["stable_tests_broken"] = broken
+            report["stable_tests_flaky_rerun"] = flaky
             ok = ok and not broken
         # run the registered checks against the changed tree
         checks = [c["property_id"] for c in json.load(open(os.path.join(VERIF, "MANIFEST.json")))["checks"]]
